@@ -1,10 +1,163 @@
-(** C08 — CFG transformations preserve the generated language (work in progress: stage 1).
-    Statements only. *)
-From Algo.C08 Require Import Model Names.
-From Algo.C09 Require Import Concrete.
+(** C08 — CFG transformations preserve the generated language.
+
+    Statements only; proofs are in Algo.C08.Proofs*.  [L G w] is the derivation semantics of
+    Algo.Grammar.CFG ([derives G [Nt (start G)] (map Tm w)]); [same_language G G'] is
+    [forall w, L G' w <-> L G w].  The model functions are those of Algo.C08.Model, generic in
+    the types of terminals and non-terminals, their boolean equalities and the name generator
+    [fresh] behind AddNewNonTerminal, of which only freshness is assumed; the instance used by
+    the correspondence (Go strings, Go's suffix lists) satisfies the assumptions
+    ([C08_instance]).
+
+    Every transformation that introduces non-terminals can hit Go's documented panic "Failed to
+    generate a new non-terminal" (a suffix list is exhausted): the model returns
+    [Panic OutOfNames] exactly then (known finding fresh-name-exhaustion), and the theorems
+    say: the result is never [Hang], the only panic is that one, otherwise a grammar with the
+    same language is returned. *)
+From Coq Require Import List.
+From Algo.Grammar Require Import CFG.
+From Algo.C08 Require Import Model Spec ProofsBase ProofsLang1 ProofsLang2 ProofsLang3 ProofsLang4
+     Names NamesProofs Recognise RecogniseProofs.
+Import ListNotations.
+
+Section C08.
+  Context {T N : Type}.
+  Variable teqb : T -> T -> bool.
+  Variable neqb : N -> N -> bool.
+  Variable t2n : T -> N.
+  Variable fresh : skind -> list N -> N -> option N.
+  Hypothesis teqb_spec : forall x y, teqb x y = true <-> x = y.
+  Hypothesis neqb_spec : forall x y, neqb x y = true <-> x = y.
+  Hypothesis fresh_spec : forall k nts b x, fresh k nts b = Some x -> ~ In x nts.
+
+  Notation gram := (grammar T N).
+
+  (** the shape of every statement: name exhaustion, or an equivalent grammar *)
+  Definition preserves (X : gram -> res gram) (G : gram) : Prop :=
+    X G = Panic OutOfNames \/ exists G', X G = Ok G' /\ forall w, L G' w <-> L G w.
+
+  (** EliminateUnreachableProductions (for every grammar, valid or not; it never panics) *)
+  Theorem C08_unreachable : forall G : gram,
+    exists G', unreachable_elim teqb neqb G = Ok G' /\ forall w, L G' w <-> L G w.
+  Proof. intros G. apply (unreachable_lang teqb neqb neqb_spec G). Qed.
+
+  (** EliminateSingleProductions (UNIT; it never panics) *)
+  Theorem C08_unit : forall G : gram, valid G ->
+    exists G', unit_elim teqb neqb G = Ok G' /\ forall w, L G' w <-> L G w.
+  Proof.
+    intros G HG. destruct (unit_lang teqb neqb teqb_spec neqb_spec G (valid_wf G HG)) as (G' & H1 & H2 & _).
+    exists G'. split; [exact H1 | exact H2].
+  Qed.
+
+  (** EliminateEmptyProductions (DEL), whatever the length of the bodies and the positions of
+      the nullable symbols *)
+  Theorem C08_del : forall G : gram, valid G -> preserves (del teqb neqb fresh) G.
+  Proof.
+    intros G HG. destruct (ok_or_names_disj _ _ (del_total teqb neqb fresh teqb_spec neqb_spec fresh_spec G (valid_wf G HG))) as [H|(G' & H1 & H2 & _)].
+    - left; exact H.
+    - right. exists G'. split; [exact H1 | exact H2].
+  Qed.
+
+  (** the sub-steps START, TERM, BIN of ChomskyNormalForm *)
+  Theorem C08_cnf_start : forall G : gram, valid G -> preserves (cnf_start teqb neqb fresh) G.
+  Proof.
+    intros G HG. destruct (ok_or_names_disj _ _ (start_total teqb neqb fresh teqb_spec neqb_spec fresh_spec G (valid_wf G HG))) as [H|(G' & H1 & H2 & _)].
+    - left; exact H.
+    - right. exists G'. split; [exact H1 | exact H2].
+  Qed.
+
+  Theorem C08_cnf_term : forall G : gram, valid G -> preserves (cnf_term teqb neqb t2n fresh) G.
+  Proof.
+    intros G HG. destruct (ok_or_names_disj _ _ (term_total teqb neqb t2n fresh teqb_spec neqb_spec fresh_spec G (valid_wf G HG))) as [H|(G' & H1 & H2 & _)].
+    - left; exact H.
+    - right. exists G'. split; [exact H1 | exact H2].
+  Qed.
+
+  Theorem C08_cnf_bin : forall G : gram, valid G -> preserves (cnf_bin teqb neqb fresh) G.
+  Proof.
+    intros G HG. destruct (ok_or_names_disj _ _ (bin_total teqb neqb fresh teqb_spec neqb_spec fresh_spec G (valid_wf G HG))) as [H|(G' & H1 & H2 & _)].
+    - left; exact H.
+    - right. exists G'. split; [exact H1 | exact H2].
+  Qed.
+
+  (** ChomskyNormalForm = START; TERM; BIN; DEL; UNIT; Unreachable *)
+  Theorem C08_chomsky : forall G : gram, valid G -> preserves (chomsky teqb neqb t2n fresh) G.
+  Proof.
+    intros G HG. destruct (ok_or_names_disj _ _ (chomsky_total teqb neqb t2n fresh teqb_spec neqb_spec fresh_spec G (valid_wf G HG))) as [H|(G' & H1 & H2 & _)].
+    - left; exact H.
+    - right. exists G'. split; [exact H1 | exact H2].
+  Qed.
+
+  (** EliminateCycles = DEL; UNIT; Unreachable *)
+  Theorem C08_cycles : forall G : gram, valid G -> preserves (cycles_elim teqb neqb fresh) G.
+  Proof.
+    intros G HG. destruct (ok_or_names_disj _ _ (cycles_total teqb neqb fresh teqb_spec neqb_spec fresh_spec G (valid_wf G HG))) as [H|(G' & H1 & H2 & _)].
+    - left; exact H.
+    - right. exists G'. split; [exact H1 | exact H2].
+  Qed.
+
+  (** NullableNonTerminals is exact (used by DEL) and never hangs *)
+  Theorem C08_nullable : forall P : list (production T N),
+    exists nl, nullable neqb P = Ok nl /\ forall A, In A nl <-> gen P (Nt A) [].
+  Proof.
+    intros P. destruct (nullable_total neqb neqb_spec P) as [nl H]. exists nl. split; [exact H|].
+    apply (nullable_spec neqb neqb_spec P nl H).
+  Qed.
+
+  (** the big-step semantics used in the proofs is the derivation semantics *)
+  Theorem C08_semantics : forall (G : gram) w, L G w <-> gen (prods G) (Nt (start G)) w.
+  Proof. exact L_gen. Qed.
+
+  (** the full statements for the two transformations not yet proved in full *)
+  Definition C08_left_factor_full : Prop :=
+    forall G : gram, valid G -> preserves (left_factor teqb neqb fresh) G.
+  Definition C08_left_recursion_elim_full : Prop :=
+    forall (order : gram -> list N) (G : gram), valid G ->
+      preserves (left_recursion_elim teqb neqb fresh order) G.
+
+  (** EliminateLeftRecursion, partial: it never hangs before its own loop, its first stage
+      (EliminateCycles) is language preserving, and the loop keeps terminals and start symbol.
+      Missing: the substitution step A_i -> A_j γ and the immediate-recursion step are not yet
+      proved language preserving (the correspondence and the bounded oracle check them). *)
+  Theorem C08_left_recursion_elim_partial :
+    forall (order : gram -> list N) (G G' : gram), valid G ->
+      left_recursion_elim teqb neqb fresh order G = Ok G' ->
+      exists G1, cycles_elim teqb neqb fresh G = Ok G1 /\ (forall w, L G1 w <-> L G w) /\
+                 terms G' = terms G1 /\ start G' = start G1.
+  Proof.
+    intros order G G' HG H. unfold left_recursion_elim in H.
+    pose proof (cycles_total teqb neqb fresh teqb_spec neqb_spec fresh_spec G (valid_wf G HG)) as Hc.
+    destruct (cycles_elim teqb neqb fresh G) as [G1| |]; simpl in H; try discriminate.
+    destruct Hc as [HL _]. exists G1. split; [reflexivity|]. split; [exact HL|].
+    destruct (elr_loop teqb neqb fresh [] (order G1) (nonterms G1, prods G1)); simpl in H; try discriminate.
+    inversion H; subst. split; reflexivity.
+  Qed.
+End C08.
+
+(** The instance used by the correspondence satisfies the assumptions. *)
+Theorem C08_instance :
+  (forall x y, name_eqb x y = true <-> x = y) /\
+  (forall k nts b x, fresh_name k nts b = Some x -> ~ In x nts).
+Proof. split; [exact name_eqb_spec | exact fresh_name_spec]. Qed.
+
+(** hence, e.g., for the extracted ChomskyNormalForm and EliminateEmptyProductions *)
+Theorem C08_chomsky_concrete : forall G : cgram, valid G -> preserves c_chomsky G.
+Proof. apply (C08_chomsky name_eqb name_eqb t2n_id fresh_name name_eqb_spec name_eqb_spec fresh_name_spec). Qed.
+
+Theorem C08_del_concrete : forall G : cgram, valid G -> preserves c_del G.
+Proof. apply (C08_del name_eqb name_eqb fresh_name name_eqb_spec name_eqb_spec fresh_name_spec). Qed.
+
+(** The bounded membership oracle used for the failing-input search is correct: when it
+    answers, a table entry is exactly the set of generated strings up to the bound. *)
+Theorem C08_bounded_oracle_correct :
+  forall {T N} (tcmp : T -> T -> comparison) (neqb : N -> N -> bool),
+    (forall x y, tcmp x y = Eq -> x = y) -> (forall x y, neqb x y = true <-> x = y) ->
+    forall (P : list (production T N)) k fuel t, bounded_lang tcmp neqb k fuel P = Some t ->
+    forall A w, (In w (lookup neqb A t) -> gen P (Nt A) w) /\
+                (gen P (Nt A) w -> length w <= k -> In w (lookup neqb A t)).
+Proof. intros T N tcmp neqb H1 H2 P k fuel t H. apply (bounded_lang_correct tcmp neqb H1 H2 P k fuel t H). Qed.
 
 (** Non-vacuity / regression witness of D08a on the model of the fixed code:
-    S -> A B C D E f with A..E nullable yields all 32 bodies. *)
+    S -> A B C D E f with A..E nullable yields all 32 bodies for S (plus 5 terminal rules). *)
 Example C08_example_D08a :
   let n (c : N) : name := [c] in
   let S := n 83%N in let A := n 65%N in let B := n 66%N in let C := n 67%N in let D := n 68%N in let E := n 69%N in
@@ -16,3 +169,19 @@ Example C08_example_D08a :
   | _ => False
   end.
 Proof. vm_compute. split; reflexivity. Qed.
+
+Print Assumptions C08_unreachable.
+Print Assumptions C08_unit.
+Print Assumptions C08_del.
+Print Assumptions C08_cnf_start.
+Print Assumptions C08_cnf_term.
+Print Assumptions C08_cnf_bin.
+Print Assumptions C08_chomsky.
+Print Assumptions C08_cycles.
+Print Assumptions C08_nullable.
+Print Assumptions C08_semantics.
+Print Assumptions C08_left_recursion_elim_partial.
+Print Assumptions C08_instance.
+Print Assumptions C08_chomsky_concrete.
+Print Assumptions C08_del_concrete.
+Print Assumptions C08_bounded_oracle_correct.
